@@ -96,6 +96,11 @@ class Exec(ExprMixin, StmtMixin, LoopMixin, ModelMixin):
         s.add(cond)
         return s.check() == z3.unsat
 
+    def check_mut(self, obj):
+        """a collection created outside a summarised loop must not be mutated inside it (the summary would lose the update)"""
+        if self._generic and getattr(obj, "gen", 0) < len(self._generic):
+            raise Unsupported("mutation of an outer collection inside a loop over a symbolic sequence")
+
     def choose(self, n):
         return self.oracle.choose(n) if n > 1 else 0
 
